@@ -12,6 +12,7 @@ import numpy as np
 from .. import cards, yrun
 from ..engine import digest
 
+HISTORY_SWEEP = True
 ID = "C16"
 
 SF_KINDS = ["F2", "FL", "F3", "g1", "gL", "g4"]
